@@ -347,7 +347,11 @@ func runScenario(c *core.Ctx, stream string, idx int, s *script, noise uint64, n
 			gateForced = true
 		}
 		if i > 5 && (gate == nil || !gate.Holding()) {
-			if st, _ := sched.PoolStuck(tr, pool); st && waitersBlocked(results) && !allDone() {
+			// all parts of the predicate must describe ONE moment: the logical
+			// clock (every hook event and stamp moves it) must not move from
+			// before the pool view until after the waiters were inspected
+			seq0 := tr.Now()
+			if st, _ := sched.PoolStuck(tr, pool); st && waitersBlocked(results) && tr.Now() == seq0 && !allDone() {
 				verdict = "stuck"
 				break
 			}
@@ -502,7 +506,7 @@ func runScenario(c *core.Ctx, stream string, idx int, s *script, noise uint64, n
 // waitersBlocked tells whether every waiter that has not returned is blocked
 // inside the wait itself (WaitGroup), i.e. is not merely on its way out.
 func waitersBlocked(results []*cascadeResult) bool {
-	st := sched.GoStates()
+	d := sched.Dump() // state and stack from the same dump
 	for _, cr := range results {
 		select {
 		case <-cr.done:
@@ -510,13 +514,7 @@ func waitersBlocked(results []*cascadeResult) bool {
 		default:
 		}
 		g := atomic.LoadUint64(&cr.gid)
-		if g == 0 {
-			return false
-		}
-		if s := st[g]; s != "semacquire" && s != "sync.WaitGroup.Wait" {
-			return false
-		}
-		if !sched.GoStackHas(g, "sync.(*WaitGroup).Wait", "AddEventAndWait") {
+		if g == 0 || !sched.BlockedIn(d, g, sched.WaitGroupStates, "sync.(*WaitGroup).Wait", "AddEventAndWait") {
 			return false
 		}
 	}
